@@ -88,6 +88,12 @@ pub enum Case {
     SamplerStuck { affine: bool, uniform_rand: bool, cycle: Vec<u64>, draws: u32, seed: u64 },
     FromRandomBytes { family: String, bytes: HexBytes },
     Batch { rs: Vec<Recipe>, op: BatchOp },
+    /// the R1CS variable's `value()` is a public conversion to a native Element too: a variable allocated
+    /// (lazily) from an arbitrary field value, read back
+    GadgetValue { val: Num, input: bool, force: bool },
+    /// a long batch: element i is element i-1 plus `step` (so the projective scalings are all
+    /// different), every seventh one is a fresh copy of one of `rs` (Z = 1, identities, ...)
+    BigBatch { rs: Vec<Recipe>, step: Recipe, n: u16, op: BatchOp },
     Conv { r: Recipe, op: ConvOp },
     Elligator { bk: Bk, r1: Num, r2: Option<Num> },
     /// the (de)serialisation modes that are `unimplemented!()` on the pinned tree (uncompressed,
@@ -313,6 +319,96 @@ fn batch_case(rs: &[Recipe], op: BatchOp, ctx: &mut Ctx) -> Result<(), Failure> 
     Ok(())
 }
 
+fn gadget_value_case(val: &N, input: bool, force: bool, ctx: &mut Ctx) -> Result<(), Failure> {
+    use ark_r1cs_std::prelude::*;
+    use ark_r1cs_std::R1CSVar;
+    use ark_relations::r1cs::ConstraintSystem;
+    use decaf377::r1cs::ElementVar;
+    use std::panic::{catch_unwind, AssertUnwindSafe};
+    let c = &*CURVE;
+    let fv = arkf::fq(&(val % &Q.m));
+    let valid = c.decode_int(&(val % &Q.m)).is_ok();
+    ctx.class(&format!("gadget-value:{}", if valid { "valid-encoding" } else { "invalid-encoding" }));
+    ctx.nontrivial();
+    let r = catch_unwind(AssertUnwindSafe(|| {
+        let cs = ConstraintSystem::<ark::Fq>::new_ref();
+        let mode = if input { AllocationMode::Input } else { AllocationMode::Witness };
+        let var = <ElementVar as AllocVar<ark::Fq, ark::Fq>>::new_variable(cs.clone(), || Ok(fv), mode).ok()?;
+        if force {
+            // forcing the element first (as any gadget consuming it does) must not change what value() hands out
+            let _ = var.is_eq(&var);
+        }
+        var.value().ok()
+    }));
+    match r {
+        // refusing (error or assertion) is always acceptable for an invalid encoding
+        Err(_) | Ok(None) => {
+            if valid {
+                ctx.report("C06|ElementVar::value|refuses-valid".to_string(), format!("value() of a variable allocated from the valid encoding {val:x} fails"))?;
+            }
+            Ok(())
+        }
+        Ok(Some(e)) => {
+            valid_elem::<Ark>("ElementVar::value", &e, ctx)?;
+            if valid {
+                let want = c.decode_int(&(val % &Q.m)).unwrap();
+                if let Err(why) = judge_fast::<Ark>(&e, &want) {
+                    ctx.report("C06|ElementVar::value|wrong-element".to_string(), format!("value() of the variable allocated from {val:x}: {why}"))?;
+                }
+            }
+            Ok(())
+        }
+    }
+}
+
+fn big_batch_case(rs: &[Recipe], step: &Recipe, n: usize, op: BatchOp, ctx: &mut Ctx) -> Result<(), Failure> {
+    use ark_ec::{AffineRepr, CurveGroup, ScalarMul};
+    let c = &*CURVE;
+    let name = format!("{op:?}(long)");
+    ctx.class(&format!("big-batch:{op:?}:len{}", match n { 0..=127 => "<128", 128..=129 => "128-129", 130..=255 => "130-255", 256..=257 => "256-257", _ => ">257" }));
+    ctx.nontrivial();
+    let sm = step.model();
+    let se = step.lib::<Ark>(&sm);
+    let seeds: Vec<(Pt, AE)> = rs.iter().map(|r| { let m = r.model(); let e = r.lib::<Ark>(&m); (m.pt, e) }).collect();
+    if seeds.is_empty() {
+        return Ok(());
+    }
+    let mut ms: Vec<Pt> = Vec::with_capacity(n);
+    let mut es: Vec<AE> = Vec::with_capacity(n);
+    let (mut mp, mut ep) = seeds[0].clone();
+    for i in 0..n {
+        if i % 7 == 3 {
+            let (m, e) = &seeds[(i / 7) % seeds.len()];
+            ms.push(m.clone());
+            es.push(*e);
+        } else {
+            mp = c.add(&mp, &sm.pt);
+            ep = ep + se;
+            ms.push(mp.clone());
+            es.push(ep);
+        }
+    }
+    let out: Vec<AA> = match op {
+        BatchOp::NormalizeBatch => AE::normalize_batch(&es),
+        BatchOp::BatchConvertToMulBase => AE::batch_convert_to_mul_base(&es),
+    };
+    if out.len() != es.len() {
+        return ctx.report(format!("C06|{name}|length"), format!("{name} returned {} points for {} elements", out.len(), es.len()));
+    }
+    for (i, a) in out.iter().enumerate() {
+        ctx.sub_eval();
+        // the coordinates must denote the model's (valid) point or its coset partner: implies on-curve and in the group
+        if let Err(why) = judge_fast::<Ark>(&a.into_group(), &ms[i]) {
+            return ctx.report(format!("C06|{name}|off-curve-or-changed"), format!("{name} of {n} elements, element {i}: {why}"));
+        }
+        let back: AE = (*a).into();
+        if back.vartime_compress().0 != c.encode_bytes(&ms[i]) {
+            return ctx.report(format!("C06|{name}|encoding"), format!("{name} of {n} elements, element {i}: the returned point does not encode like the element it came from"));
+        }
+    }
+    Ok(())
+}
+
 fn sampler_case(affine: bool, uniform_rand: bool, prefix: &[u8], seed: u64, ctx: &mut Ctx) -> Result<(), Failure> {
     use ark_std::rand::distributions::{Distribution, Standard};
     use ark_std::UniformRand;
@@ -461,6 +557,9 @@ impl Property for C06 {
             1 => (any::<bool>(), any::<bool>(), gen::limb_vec(1..=3usize), prop_oneof![1 => 0u32..1500, 3 => 1500u32..6000], any::<u64>())
                 .prop_map(|(affine, uniform_rand, cycle, draws, seed)| Case::SamplerStuck { affine, uniform_rand, cycle, draws, seed }),
             5 => frb_bytes().prop_map(|(family, b)| Case::FromRandomBytes { family, bytes: HexBytes(b) }),
+            1 => (crate::r1cs_lang::fq_input(), any::<bool>(), any::<bool>()).prop_map(|(val, input, force)| Case::GadgetValue { val, input, force }),
+            1 => (proptest::collection::vec(recipe::recipe_small(), 1..=3), recipe::recipe_small(), prop_oneof![Just(127u16), Just(128), Just(129), Just(130), Just(131), Just(255), Just(256), Just(257), Just(258), Just(300), 0u16..700], any::<bool>())
+                .prop_map(|(rs, step, n, w)| Case::BigBatch { rs, step, n, op: if w { BatchOp::NormalizeBatch } else { BatchOp::BatchConvertToMulBase } }),
             3 => (proptest::collection::vec(recipe::recipe_small(), 0..=6), any::<bool>()).prop_map(|(rs, w)| Case::Batch { rs, op: if w { BatchOp::NormalizeBatch } else { BatchOp::BatchConvertToMulBase } }),
             3 => (recipe::recipe(), any::<u16>()).prop_map(|(r, i)| Case::Conv { r, op: CONVS[pick(i, CONVS.len())] }),
             1 => (bk(), gen::fq_special(), proptest::option::of(gen::fq_special())).prop_map(|(bk, r1, r2)| Case::Elligator { bk, r1, r2 }),
@@ -490,7 +589,15 @@ impl Property for C06 {
             }
         }
         for op in [BatchOp::NormalizeBatch, BatchOp::BatchConvertToMulBase] {
+            for val in [0u32, 1, 2, 3, 4, 7, 8, 10] {
+                for force in [false, true] {
+                    v.push(Case::GadgetValue { val: Num(N::from(val)), input: false, force });
+                }
+            }
             v.push(Case::Batch { rs: vec![], op });
+            for n in [1u16, 2, 64, 127, 128, 129, 130, 200, 256, 257, 513] {
+                v.push(Case::BigBatch { rs: vec![Generator, Torsion(Box::new(Identity)), Identity, MulGen(9u64.into())], step: Elligator(3u64.into()), n, op });
+            }
             v.push(Case::Batch { rs: specials.clone(), op });
             v.push(Case::Batch { rs: vec![Torsion(Box::new(Identity)), Generator, MulGen(5u64.into())], op });
             v.push(Case::Batch { rs: vec![Generator, Torsion(Box::new(Identity)), MulGen(5u64.into()), Identity, Double(g())], op });
@@ -575,6 +682,8 @@ impl Property for C06 {
                 from_random_bytes_case(&bytes.0, ctx)
             }
             Case::Batch { rs, op } => batch_case(rs, *op, ctx),
+            Case::BigBatch { rs, step, n, op } => big_batch_case(rs, step, *n as usize, *op, ctx),
+            Case::GadgetValue { val, input, force } => gadget_value_case(&val.0, *input, *force, ctx),
             Case::Conv { r, op } => conv_case(r, *op, ctx),
             Case::DeserModes { bytes } => {
                 ctx.nontrivial();
@@ -609,6 +718,19 @@ impl Property for C06 {
                         a[i] = s;
                         v.push(Case::Batch { rs: a, op: *op });
                     }
+                }
+            }
+            Case::BigBatch { rs, step, n, op } => {
+                for m in [*n / 2, n.saturating_sub(1), n.saturating_sub(16), 130, 129] {
+                    if m < *n {
+                        v.push(Case::BigBatch { rs: rs.clone(), step: step.clone(), n: m, op: *op });
+                    }
+                }
+                if rs.len() > 1 {
+                    v.push(Case::BigBatch { rs: vec![rs[0].clone()], step: step.clone(), n: *n, op: *op });
+                }
+                for s in step.shrinks() {
+                    v.push(Case::BigBatch { rs: rs.clone(), step: s, n: *n, op: *op });
                 }
             }
             Case::SamplerStuck { affine, uniform_rand, cycle, draws, seed } => {
